@@ -212,7 +212,10 @@ where
                             // Step 2: Share work.
                             #[cfg(feature = "getong_stateright_verif")]
                             crate::verif::yield_point("on_demand:after_block");
-                            if pending.len() > 1 && thread_count > 1 {
+                            // The market is consulted even when there is nothing to share (a single
+                            // worker, a single pending state): that is how a worker learns that the
+                            // market was closed in the meantime (timeout) and drops its work.
+                            if !pending.is_empty() {
                                 job_broker.split_and_push(&mut pending);
                             }
                         }
